@@ -31,6 +31,7 @@ Inductive exch :=
      (blocks : nat)                    (* header blocks read: 1 + number of 1xx responses *)
      (reads : list (bytes * rstat))    (* what the caller got from resp.Body *)
 | X2 (fields : list field) (body : option (list bytes))
+     (fin_last : bool)                 (* the last DATA frame with payload carried END_STREAM *)
      (resp_fields : list field) (reads : list (bytes * rstat))
 | X3 (fields : list field) (body : option (list bytes))
      (resp_fields : list field) (reads : list (bytes * rstat)).
@@ -62,12 +63,12 @@ Definition exch_log (ds : list dumper) (x : exch) : bool * log :=
       let '(rr, l3) := h1_recv ds n rest script_reader reads (map (fun _ => 0) reads) in
       (bytes_eqb (sr_state sr) wire && negb (sr_failed sr),
        lh ++ lpre ++ skipn (length lh) l1 ++ l2 ++ l3)
-  | X2 fs body rfs reads =>
-      let '(sr, l1) := h2_send ds no_enc id_frame [] app_w [] (mkH23Req fs body) in
+  | X2 fs body fin rfs reads =>
+      let '(sr, l1) := h2_send ds no_enc id_frame id_frame [] app_w [] (mkH23Req fs body fin) in
       let '(_, l2) := h23_recv ds rfs script_reader reads (map (fun _ => 0) reads) in
       (negb (sr_failed sr), l1 ++ l2)
   | X3 fs body rfs reads =>
-      let '(sr, l1) := h3_send ds no_enc app_w [] (mkH23Req fs body) in
+      let '(sr, l1) := h3_send ds no_enc app_w [] (mkH23Req fs body false) in
       let '(_, l2) := h23_recv ds rfs script_reader reads (map (fun _ => 0) reads) in
       (negb (sr_failed sr), l1 ++ l2)
   end.
